@@ -293,6 +293,24 @@ class Repo:
                         out.pop(n.attr, None)
         return out
 
+    def websplit(self, fi):
+        """a view of the function in which unrelated reuses of one local name are separate variables
+        (rsx/webs.py): same FuncInfo fields, renamed copy of the body.  For rules that compare values
+        through the text of local names."""
+        if not hasattr(self, '_ws_cache'):
+            self._ws_cache = {}
+        if fi.fq not in self._ws_cache:
+            import copy as _copy
+            from .webs import split_webs
+            cp = _copy.deepcopy(fi.node)
+            if split_webs(cp):
+                proxy = _copy.copy(fi)
+                proxy.node = cp
+                self._ws_cache[fi.fq] = proxy
+            else:
+                self._ws_cache[fi.fq] = fi
+        return self._ws_cache[fi.fq]
+
     def _cls_seqs(self, ci):
         """class-level tuple / list displays (through the MRO) that no method stores to: readable as self.X"""
         if ci is None:
